@@ -78,6 +78,10 @@ type PKI struct {
 	Client, ClientUntrusted, ClientExpired, ClientServerAuthOnly *Ident
 	SM2Inter, ClientViaInter                                     *Ident // issuing CA under SM2Root; client leaf under it (chain leaf+intermediate)
 	RSARoot, RSASrv                                              *Ident
+	RSASrvOther                                                  *Ident // the RSA server key certified for "other.test"
+	SrvEncOther                                                  *Ident // the GM encryption key certified for "other.test"
+	// certificates for the address 127.0.0.1 (iPAddress SAN), for clients that enter through Dial and take the name from the address
+	LoopSign, LoopEnc, LoopRSA *Ident
 	ECRoot, ECSrv                                                *Ident
 	RSAClient, ECClient                                          *Ident
 	RootsSM2, RootsStd, RootsAll                                 *gx.CertPool
@@ -135,7 +139,7 @@ func mkSM2(o certOpt, key *sm2.PrivateKey, d *big.Int, issuer *Ident) *Ident {
 func mkStd(o certOpt, pub interface{}, key crypto.Signer, issuer *Ident) *Ident {
 	serial++
 	tpl := &stdx509.Certificate{SerialNumber: big.NewInt(serial), Subject: pkix.Name{CommonName: o.cn, Organization: []string{"verif"}},
-		NotBefore: o.nb, NotAfter: o.na, KeyUsage: stdx509.KeyUsage(o.ku), DNSNames: o.dns, BasicConstraintsValid: true, IsCA: o.ca}
+		NotBefore: o.nb, NotAfter: o.na, KeyUsage: stdx509.KeyUsage(o.ku), DNSNames: o.dns, IPAddresses: o.ips, BasicConstraintsValid: true, IsCA: o.ca}
 	for _, e := range o.eku {
 		tpl.ExtKeyUsage = append(tpl.ExtKeyUsage, stdx509.ExtKeyUsage(e))
 	}
@@ -193,6 +197,13 @@ func GetPKI() *PKI {
 		p.SrvSignFuture = mkSM2(certOpt{cn: "srv sign", ku: signKU, eku: srvEKU, dns: []string{ServerName}, nb: Now.Add(24 * time.Hour), na: Now.Add(2 * y)}, k, d, p.SM2Root)
 		k, d = sm2Key(9)
 		p.SrvSignWrongName = mkSM2(valid(certOpt{cn: "srv sign", ku: signKU, eku: srvEKU, dns: []string{"other.test"}}), k, d, p.SM2Root)
+		k, d = sm2Key(41)
+		p.SrvEncOther = mkSM2(valid(certOpt{cn: "srv enc", ku: encKU, eku: srvEKU, dns: []string{"other.test"}}), k, d, p.SM2Root)
+		loop := []net.IP{net.IPv4(127, 0, 0, 1).To4()}
+		k, d = sm2Key(42)
+		p.LoopSign = mkSM2(valid(certOpt{cn: "loop sign", ku: signKU, eku: srvEKU, ips: loop}), k, d, p.SM2Root)
+		k, d = sm2Key(43)
+		p.LoopEnc = mkSM2(valid(certOpt{cn: "loop enc", ku: encKU, eku: srvEKU, ips: loop}), k, d, p.SM2Root)
 		k, d = sm2Key(10)
 		p.SrvEncExpired = mkSM2(certOpt{cn: "srv enc", ku: encKU, eku: srvEKU, dns: []string{ServerName}, nb: Now.Add(-2 * y), na: Now.Add(-24 * time.Hour)}, k, d, p.SM2Root)
 		cliEKU := []gx.ExtKeyUsage{gx.ExtKeyUsageClientAuth}
@@ -218,6 +229,8 @@ func GetPKI() *PKI {
 		p.RSARoot = mkStd(valid(certOpt{cn: "RSA Root", ca: true, ku: caKU}), &rk.PublicKey, rk, nil)
 		rk2, _ := rsa.GenerateKey(rand.Reader, 2048)
 		p.RSASrv = mkStd(valid(certOpt{cn: "rsa srv", ku: signKU | gx.KeyUsageKeyEncipherment, eku: srvEKU, dns: []string{ServerName}}), &rk2.PublicKey, rk2, p.RSARoot)
+		p.LoopRSA = mkStd(valid(certOpt{cn: "rsa loop", ku: signKU | gx.KeyUsageKeyEncipherment, eku: srvEKU, ips: []net.IP{net.IPv4(127, 0, 0, 1).To4()}}), &rk2.PublicKey, rk2, p.RSARoot)
+		p.RSASrvOther = mkStd(valid(certOpt{cn: "rsa srv other", ku: signKU | gx.KeyUsageKeyEncipherment, eku: srvEKU, dns: []string{"other.test"}}), &rk2.PublicKey, rk2, p.RSARoot)
 		rk3, _ := rsa.GenerateKey(rand.Reader, 2048)
 		p.RSAClient = mkStd(valid(certOpt{cn: "rsa client", ku: signKU, eku: cliEKU}), &rk3.PublicKey, rk3, p.RSARoot)
 		ek, _ := ecdsa.GenerateKey(elliptic.P256(), rand.Reader)
